@@ -42,6 +42,26 @@ CHECKS = {
    technique="small-scope exhaustive input enumeration (all inputs up to 2-3 bytes; all bit continuations up to 11-15 bits after every catalogue header incl. incomplete codes; every single-fault mutation, truncation and bit flip of a corpus) on the real Reader, judged against a permissive reference inflater (upper bound) and compress/flate (lower bound)",
    text="No panic, termination (livelock counter), io.EOF only where the reference finds a complete stream, every byte handed out is the reference's byte at that position, truncated valid stream => io.ErrUnexpectedEOF, defect with >=512 bytes after it => CorruptInputError, first error sticky. Enumerated: all 65793 inputs of <=2 bytes (16.8M of <=3 in thorough); for 58 code pairs x 2 block positions x bare/padded every continuation bit string; header-run faults at every boundary position; the fault catalogue; every cut and bit flip of ~35 short streams; fresh and reused Readers; every acceleration level.",
    note="Trusted: the reference inflater (permissive about unused incomplete codes) as arbiter of well-formedness; 'no hang' by livelock counter and worker timeout."),
+ "C04": dict(cat="model_checking", design="§5 C04",
+   technique="deviation-bounded exhaustive exploration of environment answers (short reads at any source call, bound 1 quick / 2 thorough) over exhaustive products of bufio size x delivery chunking x EOF mode x Read-size policy, on the real Reader, differential against the all-at-once run",
+   text="Every short corpus stream whole and cut at every byte (long streams at a ladder) is read through 13 bufio sizes x 8 delivery chunkings x EOF with/without data, 12 Read-size policies, and with every single (pair in thorough) short read of 11 ladder lengths at any source call; output bytes and final error must equal the all-at-once run. Iterative deviation bounding as in CHESS: all executions with 0 deviations, then 1, then 2.",
+   note="Trusted: the all-at-once run as reference (its absolute correctness is C02/C03's business)."),
+ "C05": dict(cat="model_checking", design="§5 C05",
+   technique="exhaustive enumeration of stream x suffix x source kind x constructor x Read policy on the real Readers; the source object itself is drained afterwards",
+   text="After io.EOF the bytes left in the very source object handed to the Reader must be exactly the suffix, for flate (NewReader and Reset), zlib and gzip (member by member), 13 bufio sizes and four non-bufio io.ByteReader kinds, five suffixes incl. one that looks like a next block, end-of-block at every bit offset.",
+   note="Non-bufio ByteReaders are a recorded known finding (over-read through an internal bufio)."),
+ "C11": dict(cat="model_checking", design="§5 C11",
+   technique="exhaustive enumeration of released prefixes (every sync-flush point and the stream end) x delivery x post-prefix behaviour with a gated source owned by the harness; 'blocks forever' is a deterministic abort at the first over-read",
+   text="For streams with 1-3 flush points from fastgo and compress/* writers (flate, gzip, zlib), each prefix is released and the source then blocks, errors (alone / with the last data) or delivers unrelated bytes; at the first request beyond the prefix or the first error the Reader must already have handed out everything encoded in the prefix, and io.EOF for a complete stream. No wall clock.",
+   note="Trusted: the gate's accounting of released bytes."),
+ "C13": dict(cat="model_checking", design="§5 C13",
+   technique="exhaustive enumeration of (first stream, read history) x (second input incl. malformed back-references and dictionary combinations) on the real Readers, differential against a fresh Reader",
+   text="A Reader that stopped mid-stream, holds undelivered output, reached io.EOF or an error is Reset onto every second input (valid corpus, streams whose back-references reach 1/2/100/32768 bytes before their start, containers, zlib dictionary combinations); bytes and error kind must equal a fresh Reader's.",
+   note="Error kinds are compared, not CorruptInputError offsets (a zlib Reader keeps the inflater its first stream needed)."),
+ "C15": dict(cat="fault_enumeration", design="§5 C15",
+   technique="exhaustive fault enumeration: the source fails after every byte count k of every corpus stream (error alone or with the last data) x source kind x delivery x Read policy on the real Readers",
+   text="For every k in 0..|s| the source delivers k bytes then fails with a fresh error value; the Reader or its constructor must return exactly that value, everything handed out before must be a prefix of the true plaintext (sentinel-filled buffers, only p[:n] counts), and the error must be sticky. flate, gzip (one and two members), zlib incl. dictionaries.",
+   note="At k = |s| a clean io.EOF of a complete stream is admissible."),
 }
 NOT_YET = {
 }
